@@ -386,7 +386,11 @@ theorem stepT_ch {s : State} {i : Nat} {t : Thread} (hd : Deb s) (h : CH s) (ht 
     split
     · exact c.setPc_close _ (nd hk _ _) (fun h => by cases h)
     · exact stopFinish_ch c hk
-  · next w hb => exact stopFinish_ch c (notDeb (by rw [hb]; rfl))
+  · next w rest hb =>
+    have hk := notDeb (by rw [hb]; rfl)
+    split
+    · exact c.setPc_close _ (nd hk _ _) (fun h => by cases h)
+    · exact stopFinish_ch c hk
   · -- wWait
     next hb =>
     have hk := notDeb (by rw [hb]; rfl)
